@@ -205,9 +205,9 @@ Qed.
 
 (* ---------- _handle ---------- *)
 Section HandleFacts.
-  Variable T : str -> str.
+  Variable T : str -> option str.
   Variable FS : str -> str -> fsres.
-  Variable GD : str -> option str.
+  Variable GD : str -> gdres.
   Variable fs_open : str -> fsr.
 
   Lemma handle_opened old c r x log opened res :
